@@ -1557,6 +1557,19 @@ def prog_illformed(seed: int, n_ops: int = 5) -> G:
     return g
 
 
+def prog_range_edges() -> G:
+    """Strided ranges whose start lies on either side of the stride and of zero, in both directions, against every
+    member value -6..8 (C12, every run): the remainder / bound arithmetic of the SQL translation."""
+    g = G(0)
+    g.engine("e0", "iter")
+    for start in range(-4, 6):
+        for step in (2, 3, -2, -3):
+            stop = start + 7 if step > 0 else start - 7
+            for v in range(-6, 9):
+                g.emit(["pred", ["in", ["ref", "a"], ["range", start, stop, step]], ["a", v], ["b", 0]])
+    return g
+
+
 def prog_range_enum(chunk: int, nchunks: int) -> G:
     """Every range with |start|,|stop| <= 4, 0 < |step| <= 3, against every member value -5..5 (C12)."""
     g = G(0)
